@@ -42,7 +42,11 @@ GFull == << Big(0), Big(1), Big(-1), Big(2), Big(-2), Big(3), Big(-3), Big(7), B
             MaxI64, Sub(MaxI64, Big(1)), MinI64, Add(MinI64, Big(1)), Add(MinI64, Big(2)) >>
 GQuick == << Big(0), Big(1), Big(-1), Big(2), Big(-2), Big(3), Big(-7), Big(63), Big(64),
              P2(31, 0), P2(32, 2), Sqrt63Hi, MaxI64, MinI64, Add(MinI64, Big(1)) >>
-G == IF GridSel = "full" THEN GFull ELSE GQuick
+\* the grid is computed once (when the assumptions are checked) and kept in TLC register 65: TLC would otherwise
+\* re-evaluate it at every use because it is built with RECURSIVE operators
+GReg == 65
+ASSUME TLCSet(GReg, IF GridSel = "full" THEN GFull ELSE GQuick)
+G == TLCGet(GReg)
 NG == Len(G)
 
 \* ------------------------------------------------------------------ concrete syntax
@@ -59,27 +63,29 @@ CmpOps == <<"<", "<=", ">", ">=", "==", "!=">>
 ArithForms(op) == IF op = "^" THEN <<"LL", "LV", "VL", "VV", "FN">> ELSE <<"LL", "LV", "VL", "VV", "CL", "CV", "FN">>
 CmpForms == <<"LL", "LV", "VL", "VV", "FN">>
 
-\* statements of one binary operation; s = unique suffix for the names it declares; rep = report function
-BinStmts(op, form, a, b, s, rep, rty) ==
+\* statements of one binary operation on the literal spellings sa / sla (= sa as a left operand) / sb;
+\* s = unique suffix for the names it declares; rep = report function; rty = result type
+BinStmts(op, form, sa, sla, sb, s, rep, rty) ==
   LET va == "a" \o s  vb == "b" \o s  vx == "x" \o s  vf == "f" \o s
-      leta == "let " \o va \o " = " \o Lit(a) \o "\n"
-      letb == "let " \o vb \o " = " \o Lit(b) \o "\n"
+      leta == "let " \o va \o " = " \o sa \o "\n"
+      letb == "let " \o vb \o " = " \o sb \o "\n"
       R(e) == rep \o "(" \o e \o ")\n"
       E(l, r) == l \o " " \o op \o " " \o r
-  IN CASE form = "LL" -> R(E(LitL(a), Lit(b)))
-       [] form = "LV" -> letb \o R(E(LitL(a), vb))
-       [] form = "VL" -> leta \o R(E(va, Lit(b)))
+  IN CASE form = "LL" -> R(E(sla, sb))
+       [] form = "LV" -> letb \o R(E(sla, vb))
+       [] form = "VL" -> leta \o R(E(va, sb))
        [] form = "VV" -> leta \o letb \o R(E(va, vb))
-       [] form = "CL" -> "var " \o vx \o " = " \o Lit(a) \o "\n" \o vx \o " " \o op \o "= " \o Lit(b) \o "\n" \o R(vx)
-       [] form = "CV" -> "var " \o vx \o " = " \o Lit(a) \o "\n" \o letb \o vx \o " " \o op \o "= " \o vb \o "\n" \o R(vx)
+       [] form = "CL" -> "var " \o vx \o " = " \o sa \o "\n" \o vx \o " " \o op \o "= " \o sb \o "\n" \o R(vx)
+       [] form = "CV" -> "var " \o vx \o " = " \o sa \o "\n" \o letb \o vx \o " " \o op \o "= " \o vb \o "\n" \o R(vx)
        [] form = "FN" -> "fn " \o vf \o "(p: int, q: int) -> " \o rty \o " {\n    " \o E("p", "q") \o "\n}\n"
-                         \o R(vf \o "(" \o Lit(a) \o ", " \o Lit(b) \o ")")
-NegStmts(form, a, s) ==
-  IF form = "UL" THEN "report(-(" \o Lit(a) \o "))\n"
-  ELSE "let a" \o s \o " = " \o Lit(a) \o "\nreport(-a" \o s \o ")\n"
+                         \o R(vf \o "(" \o sa \o ", " \o sb \o ")")
+NegStmts(form, sa, s) ==
+  IF form = "UL" THEN "report(-(" \o sa \o "))\n"
+  ELSE "let a" \o s \o " = " \o sa \o "\nreport(-a" \o s \o ")\n"
 
 \* ------------------------------------------------------------------ defect-family keys (by *input class* only)
-Two32 == Pow2(32)
+Two32 == [neg |-> FALSE, mag |-> <<7296, 9496, 42>>]                   \* 2^32 = 4294967296
+ASSUME Two32 = Pow2(32)
 KeyOf(op, a, b) ==
   IF op = "^" /\ ~b.neg /\ Cmp(b, Two32) >= 0 THEN "C15|^|exp>=2^32"
   ELSE IF op = "/" /\ a = MinI64 /\ b = Big(-1) THEN "C15|/|MIN/-1"
@@ -93,38 +99,45 @@ OpName(op) == CASE op = "+" -> "add" [] op = "-" -> "sub" [] op = "*" -> "mul" [
 OutKind(r) == IF r.k = "val" THEN "val" ELSE r.e
 ExpectOf(r) == IF r.k = "val" THEN [status |-> "done", host |-> << <<ToDec(r.v)>> >>]
                ELSE [status |-> "error", host |-> <<>>, errkind |-> r.e]
-OpRec(pid, op, form, a, b, r, stmts) ==
-  [id |-> pid \o "." \o OpName(op) \o "." \o form, op |-> op, form |-> form, stmts |-> stmts, expect |-> ExpectOf(r),
-   cat |-> op \o "|" \o OutKind(r), key |-> KeyOf(op, a, b),
-   \* an operation that must stop the program, or that belongs to a suspected defect family, gets a program of its own
-   solo |-> (r.k # "val" \/ KeyOf(op, a, b) # "")]
-
-SeqOfForms(pid, op, forms, a, b, r, rep, rty, n) ==
-  [f \in 1..Len(forms) |-> OpRec(pid, op, forms[f], a, b, r,
-                                  BinStmts(op, forms[f], a, b, "_" \o pid \o "_" \o ToString(n) \o "_" \o ToString(f), rep, rty))]
 
 RECURSIVE Flatten(_)
 Flatten(ss) == IF ss = <<>> THEN <<>> ELSE Head(ss) \o Flatten(Tail(ss))
 
-ArithRecs(pid, a, b) ==
+\* L = [a, b, sa, sla, sb]: the operands and their literal spellings (computed once per pair)
+ArithRecs(pid, L) ==
   Flatten([n \in 1..Len(ArithOps) |->
-     LET op == ArithOps[n]  r == BinOp(op, a, b) IN
-     IF r.k = "unspec" THEN <<>> ELSE SeqOfForms(pid, op, ArithForms(op), a, b, r, "report", "int", n)])
-CmpRecs(pid, a, b) ==
+     LET op == ArithOps[n]
+         r == BinOp(op, L.a, L.b)
+         key == KeyOf(op, L.a, L.b)
+         forms == ArithForms(op)
+         exp == ExpectOf(r)
+         cat == op \o "|" \o OutKind(r)
+         base == pid \o "." \o OpName(op) \o "."
+         sfx == "_" \o pid \o "_" \o ToString(n) \o "_"
+     IN IF r.k = "unspec" THEN <<>> ELSE
+        [f \in 1..Len(forms) |->
+          [id |-> base \o forms[f], op |-> op, form |-> forms[f],
+           stmts |-> BinStmts(op, forms[f], L.sa, L.sla, L.sb, sfx \o ToString(f), "report", "int"),
+           expect |-> exp, cat |-> cat, key |-> key,
+           \* an operation that must stop the program, or that belongs to a suspected defect family, gets a program of its own
+           solo |-> (r.k # "val" \/ key # "")]]])
+CmpRecs(pid, L) ==
   Flatten([n \in 1..Len(CmpOps) |->
      LET op == CmpOps[n]
-         r == [k |-> "cmp"]
-         forms == CmpForms
-     IN [f \in 1..Len(forms) |->
-          [id |-> pid \o "." \o OpName(op) \o "." \o forms[f], op |-> op, form |-> forms[f],
-           stmts |-> BinStmts(op, forms[f], a, b, "_" \o pid \o "_c" \o ToString(n) \o "_" \o ToString(f), "reportb", "bool"),
-           expect |-> [status |-> "done", host |-> << <<CmpOp(op, a, b)>> >>],
-           cat |-> op \o "|" \o (IF CmpOp(op, a, b) THEN "true" ELSE "false"), key |-> "", solo |-> FALSE]]])
-NegRecs(pid, a) ==
-  LET r == NegOp(a) IN
+         v == CmpOp(op, L.a, L.b)
+         exp == [status |-> "done", host |-> << <<v>> >>]
+         cat == op \o "|" \o (IF v THEN "true" ELSE "false")
+         base == pid \o "." \o OpName(op) \o "."
+         sfx == "_" \o pid \o "_c" \o ToString(n) \o "_"
+     IN [f \in 1..Len(CmpForms) |->
+          [id |-> base \o CmpForms[f], op |-> op, form |-> CmpForms[f],
+           stmts |-> BinStmts(op, CmpForms[f], L.sa, L.sla, L.sb, sfx \o ToString(f), "reportb", "bool"),
+           expect |-> exp, cat |-> cat, key |-> "", solo |-> FALSE]]])
+NegRecs(pid, L) ==
+  LET r == NegOp(L.a)  exp == ExpectOf(r) IN
   [f \in 1..2 |-> LET form == <<"UL", "UV">>[f] IN
-     [id |-> pid \o ".neg." \o form, op |-> "neg", form |-> form, stmts |-> NegStmts(form, a, "_" \o pid \o "_n" \o ToString(f)),
-      expect |-> ExpectOf(r), cat |-> "neg|" \o OutKind(r), key |-> "", solo |-> (r.k # "val")]]
+     [id |-> pid \o ".neg." \o form, op |-> "neg", form |-> form, stmts |-> NegStmts(form, L.sa, "_" \o pid \o "_n" \o ToString(f)),
+      expect |-> exp, cat |-> "neg|" \o OutKind(r), key |-> "", solo |-> (r.k # "val")]]
 
 \* self-check of the model on the operands it is used on (defining relations of / and %, ring laws)
 ModelOK(a, b) == /\ RingLaw(a, b)
@@ -135,7 +148,8 @@ PairRec(pid, a, b, withNeg) ==
   [id |-> pid, a |-> ToDec(a), b |-> ToDec(b),
    unspec |-> (IF b.neg THEN 1 ELSE 0),                  \* `^` with a negative exponent: not defined by the reference, not compared
    modelok |-> ModelOK(a, b),
-   ops |-> ArithRecs(pid, a, b) \o CmpRecs(pid, a, b) \o (IF withNeg THEN NegRecs(pid, a) ELSE <<>>)]
+   ops |-> LET L == [a |-> a, b |-> b, sa |-> ToDec(a), sla |-> LitL(a), sb |-> ToDec(b)] IN
+           ArithRecs(pid, L) \o CmpRecs(pid, L) \o (IF withNeg THEN NegRecs(pid, L) ELSE <<>>)]
 
 Meta == [id |-> "meta", header |-> Header, hostfns |-> HostFns, grid |-> [i \in 1..NG |-> ToDec(G[i])],
          anchors |-> [max |-> ToDec(MaxI64), min |-> ToDec(MinI64)]]
